@@ -123,3 +123,18 @@ def _c09_cleared_terminal(case, mm):
             if s["h"] in ref.env and L in ref.env and ref.tok(L) in ref.D.get(ref.tok(s["h"]), frozenset()):
                 return True
     return False
+
+
+def _gru_output_shape(case, mm):
+    if mm.kind not in ("grad_shape", "grad_meta"):
+        return False
+    if case.get("op") != "gru" or mm.extra.get("h") != case.get("L"):
+        return False
+    for s in case["prog"]["stmts"]:
+        if s.get("h") == case["L"]:
+            return s["k"] == "op" and s["op"] == "gru"
+    return False
+
+
+PREDICATES["C02-gru-output-grad-shape"] = _gru_output_shape
+PREDICATES["C14-gru-output-grad-shape"] = _gru_output_shape
